@@ -385,4 +385,104 @@ def lhWriteCalibs : Mem → List (Nat × Calib) → Except PyErr Mem
     let m' ← lhWriteCalib m bs c
     lhWriteCalibs m' rest
 
+/-! ## Deck memory info section (deck_memory.py) -/
+
+def isCont (b : UInt8) : Bool := 0x80 ≤ b.toNat && b.toNat ≤ 0xBF
+
+/-- `bytes.decode()` (UTF-8, strict): the code points, or `none` for UnicodeDecodeError.
+Shortest form only, no surrogates, nothing above U+10FFFF (as CPython). -/
+def utf8Decode : List UInt8 → Option (List Nat)
+  | [] => some []
+  | b0 :: rest =>
+    let n0 := b0.toNat
+    if n0 < 0x80 then (utf8Decode rest).map (n0 :: ·)
+    else if 0xC2 ≤ n0 ∧ n0 ≤ 0xDF then
+      match rest with
+      | b1 :: r =>
+        if isCont b1 then (utf8Decode r).map (((n0 - 0xC0) * 64 + (b1.toNat - 0x80)) :: ·) else none
+      | _ => none
+    else if 0xE0 ≤ n0 ∧ n0 ≤ 0xEF then
+      match rest with
+      | b1 :: b2 :: r =>
+        let lo := if n0 = 0xE0 then 0xA0 else 0x80
+        let hi := if n0 = 0xED then 0x9F else 0xBF
+        if lo ≤ b1.toNat ∧ b1.toNat ≤ hi ∧ isCont b2 then
+          (utf8Decode r).map (((n0 - 0xE0) * 4096 + (b1.toNat - 0x80) * 64 + (b2.toNat - 0x80)) :: ·)
+        else none
+      | _ => none
+    else if 0xF0 ≤ n0 ∧ n0 ≤ 0xF4 then
+      match rest with
+      | b1 :: b2 :: b3 :: r =>
+        let lo := if n0 = 0xF0 then 0x90 else 0x80
+        let hi := if n0 = 0xF4 then 0x8F else 0xBF
+        if lo ≤ b1.toNat ∧ b1.toNat ≤ hi ∧ isCont b2 ∧ isCont b3 then
+          (utf8Decode r).map (((n0 - 0xF0) * 262144 + (b1.toNat - 0x80) * 4096 + (b2.toNat - 0x80) * 64 + (b3.toNat - 0x80)) :: ·)
+        else none
+      | _ => none
+    else none
+
+/-- the observable attributes of one `DeckMemory` -/
+structure DeckInfo where
+  bf1 : Nat
+  bf2 : Nat
+  requiredHash : Nat
+  requiredLength : Nat
+  baseAddress : Nat
+  name : List Nat            -- code points
+  cmdBase : Nat
+  deriving Repr, DecidableEq
+
+/-- the nine boolean properties, in the order of `Gen.C14.deckProps` -/
+def DeckInfo.flags (d : DeckInfo) : List Bool :=
+  [d.bf1 &&& Gen.C14.deckMaskIsValid != 0, d.bf1 &&& Gen.C14.deckMaskIsStarted != 0,
+   d.bf1 &&& Gen.C14.deckMaskSupportsRead != 0, d.bf1 &&& Gen.C14.deckMaskSupportsWrite != 0,
+   d.bf1 &&& Gen.C14.deckMaskSupportsUpgrade != 0, d.bf1 &&& Gen.C14.deckMaskUpgradeRequired != 0,
+   d.bf1 &&& Gen.C14.deckMaskBootloaderActive != 0,
+   d.bf2 &&& Gen.C14.deckMaskSupportsResetToFw != 0, d.bf2 &&& Gen.C14.deckMaskSupportsResetToBootloader != 0]
+
+/-- `DeckMemory._parse(data)` followed by the caller's `if deck_memory.is_valid`: `none` = not listed.
+Any exception while decoding the record of a deck that claims to be valid is swallowed and the deck dropped. -/
+def deckParseOne (data : List UInt8) (cmdBase : Nat) : Except PyErr (Option DeckInfo) :=
+  match unpack (parseFmt! Gen.C14.deckBitsFmt) (slice data 0 2) with
+  | .error e => .error e
+  | .ok [.int bf1, .int bf2] =>
+    if bf1.toNat &&& Gen.C14.deckMaskIsValid != 0 then
+      match unpack (parseFmt! Gen.C14.deckRecFmt) (data.drop 2) with
+      | .ok [.int h, .int l, .int b, .bytes nm] =>
+        match utf8Decode (nm.takeWhile (· != 0)) with            -- _name.split(b'\x00')[0].decode()
+        | some cps => .ok (some ⟨bf1.toNat, bf2.toNat, h.toNat, l.toNat, b.toNat, cps, cmdBase⟩)
+        | none => .ok none
+      | _ => .ok none
+    else .ok none
+  | .ok _ => .error .valueError
+
+/-- the `for i in range(MAX_NR_OF_DECK_MEM_INFOS)` loop from index `i`, `k` iterations to go -/
+def deckLoop (data : List UInt8) : Nat → Nat → Except PyErr (List (Nat × DeckInfo))
+  | _, 0 => .ok []
+  | i, k + 1 => do
+    let start := Gen.C14.deckStart i
+    let r ← deckParseOne (slice data start (Gen.C14.deckEnd start)) (Gen.C14.deckCmdBase i)
+    let rest ← deckLoop data (i + 1) k
+    pure (match r with
+      | some d => (i, d) :: rest
+      | none => rest)
+
+inductive DeckResult
+  | decks (l : List (Nat × DeckInfo))     -- query_complete_cb(deck_memories)
+  | unsupported (version : Nat)           -- RuntimeError -> query_failed_cb
+  deriving Repr, DecidableEq
+
+/-- `DeckMemoryManager._parse_info_section(data)` as used by `_new_data` -/
+def deckParseInfo (data : List UInt8) : Except PyErr DeckResult :=
+  match unpack (parseFmt! Gen.C14.deckVersionFmt) (slice data 0 1) with
+  | .error e => .error e
+  | .ok [.int v] =>
+    if v.toNat ≠ Gen.C14.deckSupportedVersion then .ok (.unsupported v.toNat)
+    else (deckLoop data 0 Gen.C14.deckMaxNrOfDeckMemInfos).map .decks
+  | .ok _ => .error .valueError
+
+/-- `query_decks`: read `(INFO_SECTION_ADDRESS, SIZE_OF_INFO_SECTION)` then `_new_data` -/
+def deckQuery (m : Mem) : Except PyErr DeckResult :=
+  deckParseInfo (m.read Gen.C14.deckInfoSectionAddress Gen.C14.deckSizeOfInfoSection)
+
 end CfVerif.C14
